@@ -290,7 +290,9 @@ func guard(f func()) (msg string) {
 
 func regHTTP(name string, mk func() http.Handler) {
 	t := &target{}
-	t.regErr = guard(func() { t.handler = mk() })
+	// an application may build more than one engine (a second listener, a fresh router per test): every router is
+	// registered on two engine instances and the requests go to the SECOND one
+	t.regErr = guard(func() { _ = mk(); t.handler = mk() })
 	targets[name] = t
 }
 
@@ -307,6 +309,7 @@ func regFiber(name string, reg func(*fiber.App)) {
 			}()
 			return c.Next()
 		})
+		reg(fiber.New(fiber.Config{DisableStartupMessage: true}))   // first instance, discarded (see regHTTP)
 		reg(app)
 		t.app = app
 	})
